@@ -146,11 +146,11 @@ PROPS["C10"] = {
     "kernels": ["is_failure", "with_done", "with_failure"],
     "facts": COMPOSE_FACTS + ["effects/fallbackexecutor:executor.Apply"],
     "required_theorems": ["Failsafe.Props.C10.fallback_spec", "Failsafe.Props.C10.fallback_applied_iff", "Failsafe.Props.C10.fallback_output_reclassified",
-                          "Failsafe.Props.C10.unhandled_passthrough", "Failsafe.Props.C10.no_fallback_output_under_cancel"],
+                          "Failsafe.Props.C10.unhandled_passthrough", "Failsafe.Props.C10.no_fallback_output_under_cancel", "Failsafe.Props.C10.fallback_sees_failed_outcome"],
     "diff": [COMPOSE_DIFF], "rule": COMPOSE_RULE, "assumptions": COMPOSE_ASSUME, "modelled": COMPOSE_MODELLED,
     "manifest": {
         "text": "Lean 4 theorems about the fallback layer of the composition model, each for an arbitrary inner layer and run state: the layer's complete behaviour (fallback_spec); applied iff the inner outcome is a failure by the fallback's own conditions and the execution is not cancelled, exactly once (event count); output replaces the result and is re-classified by the same conditions (verdict reset); unhandled results pass through unchanged; no fallback output under cancellation. Tie: FACTS (order of effects in fallback Apply), GEN (IsFailure, flag algebra), DIFF of random policy stacks incl. all fallback kinds against the real library.",
-        "note": "Trusted: Lean kernel; translator/fact extractor; harness canonicalisation. WithFunc fallbacks are represented by WithResult/WithError (the builders reduce to WithFunc). The fallback function's view of LastResult/LastError is checked by DIFF, not stated as a theorem.",
+        "note": "Trusted: Lean kernel; translator/fact extractor; harness canonicalisation. WithFunc fallbacks are represented by WithResult/WithError (the builders reduce to WithFunc). The fallback function's view of the failed outcome is a theorem (fallback_sees_failed_outcome) and is observed by DIFF through a WithFunc fallback that records LastResult/LastError.",
         "technique": "Lean 4 proof (per-layer theorems over an arbitrary inner layer) + structural facts + differential correspondence"},
 }
 PROPS["C11"] = {
@@ -170,7 +170,8 @@ PROPS["C17"] = {
     "props": "Failsafe.Props.C17", "ties": [],
     "kernels": [],
     "facts": COMPOSE_FACTS + ["effects/execution:execution.InitializeRetry", "effects/execution:execution.CopyForHedge", "effects/execution:execution.record",
-                              "effects/execution:execution.RecordResult"],
+                              "effects/execution:execution.RecordResult", "bodies/execution:execution.RecordResult", "bodies/execution:execution.InitializeRetry",
+                              "bodies/execution:execution.CopyForHedge", "bodies/execution:execution.Cancel", "bodies/execution:execution.copy", "bodies/execution:.newExecution"],
     "required_theorems": ["Failsafe.Props.C17.attempts_eq_one_plus_retries_plus_hedges", "Failsafe.Props.C17.applyPolicy_preserves",
                           "Failsafe.Props.C17.executeStack_preserves", "Failsafe.Props.C17.breaker_rejection_not_an_execution",
                           "Failsafe.Props.C17.bulkhead_rejection_not_an_execution", "Failsafe.Props.C17.hedge_preserves", "Failsafe.Props.C17.retry_preserves"],
@@ -179,7 +180,7 @@ PROPS["C17"] = {
         "start times / elapsed times (monotone clock readings) are not modelled"],
     "manifest": {
         "text": "Lean 4 theorems: Attempts = 1 + Retries + Hedges is an invariant of every policy layer over an arbitrary inner layer, hence of every execution of every policy list (induction over the list; retry and hedge by induction on their loops); an attempt rejected by an open breaker or a full bulkhead leaves invocations and Executions unchanged. Tie: FACTS (InitializeRetry / CopyForHedge / record bodies), DIFF sampling Attempts/Executions inside every listener and Retries/Hedges/Executions in the done event against the model's value at that point.",
-        "note": "Trusted: Lean kernel; fact extractor; harness. LastResult/LastError visibility and time monotonicity are validated by DIFF/stress only.",
+        "note": "Trusted: Lean kernel; fact extractor; harness. LastResult/LastError seen by each function invocation and fallback function are part of the DIFF event log (model field Run.last); time monotonicity is not modelled.",
         "technique": "Lean 4 proof (inductive invariant over layers and policy lists) + structural facts + differential correspondence"},
 }
 
